@@ -24,7 +24,7 @@ def run_vsim(ctx, idx, c, timeout=300):
         # the harness itself hung (no progress inside one Stepper call): that is a liveness failure
         with open(out, "w") as fh:
             fh.write(json.dumps({"e": "Config", "nslots": 1, "initcap": 1, "seccap": 99, "parts": [], "cbs": [],
-                                 "stepbins": 0, "order": "none"}) + "\n")
+                                 "stepbins": 0, "order": "none", "msc": False, "field": False}) + "\n")
             fh.write(json.dumps({"e": "Ranks", "zeroE": 0, "zeroT": 0, "zeroL": 0}) + "\n")
             fh.write(json.dumps({"e": "Abort", "what": "vsim timed out after %ds" % timeout}) + "\n")
     elif r.returncode != 0 or not os.path.exists(out):
@@ -128,7 +128,8 @@ def base_matrix(seed, quick):
                        scale=[1, 5, 20, 50][(i // 2) % 4], order=orders[i % len(orders)] if i % 3 else "none",
                        inflight=[0, 2, 5][i % 3], maxsteps=40000,
                        field=[0, 0, 1, 0, 0.01, 0, 5, 0][(i // 3) % 8],
-                       killat=[0, 0, 0, 0, 3, 0, 0, 7][(i // 2) % 8]))
+                       killat=[0, 0, 0, 0, 3, 0, 0, 7][(i // 2) % 8],
+                       msc=[0, 1, 0, 1, 1, 0][i % 6]))
     return cs
 
 
